@@ -143,7 +143,9 @@ def show_res(r):
 IDENTS = ["a", "b", "w", "k", "name", "x1", "é", "a1", "_p", "msg"]
 LITS = ["", "a", " ", "ab c", "é", "{{", "}}", "{{}}", "x{{y", "}}{{", "%s", "\\", "!", ":", "[", "]", ".", "0", "<", ">",
         "\n", "\t", "a:b", "{{0}}", "]]", "⟦", "|"]
-SPECS_SYM = ["", ">10", "x", "^8", " ", "0", "a:b", "!r", "[", "]", ".2f", "é", "<"]
+SPECS_SYM = ["", ">10", "x", "^8", " ", "0", "a:b", "!r", "[", "]", ".2f", "é", "<",
+             # text that would be colour markup if it were literal text: must reach __format__ verbatim
+             "<>8", "><8", "<b>", "</b>", "<b>x</b>", "\\<b>", "%H<b>%M</b>", "<red>", "</>", "<fg 1,2,3>", "<nosuchtag>", ">", "<<", "\\"]
 CONVS = ["r", "s", "a", "x", "}", "!", ":", "R", " "]
 
 
@@ -182,7 +184,7 @@ def gen_field(rng, mode, kws, nargs, depth, specs, convs_pct=25):
         k = rng.below(10)
         if depth > 0 and k < 5:
             inner = gen_field(rng, mode, kws, nargs, depth - 1, specs)
-            spec = ":" + rng.choice(["", ">", "^", "0", "x"]) + inner + rng.choice(["", "", ".2", "d"])
+            spec = ":" + rng.choice(["", ">", "^", "0", "x", "<", "</", "\\<"]) + inner + rng.choice(["", "", ".2", "d", ">", ">"])
         elif depth > 0 and k == 5:
             spec = ":" + rng.choice(["{{}}", "{{", "}}", "{{a}}", "{{%Y}}", "}{", "{}{}"])
         else:
@@ -229,6 +231,18 @@ def parse_lenient(t):
         except ValueError:
             pass
         return out
+
+
+def literals_lt_free(t):
+    """the TOP-LEVEL literal texts of the template (the only texts loguru may read as colour markup)
+    hold no '<'; format specs and field names may hold anything"""
+    return all("<" not in lit for lit, _n, _s, _c in parse_lenient(t))
+
+
+def markup_free_for_model(t):
+    """make a generated template markup-free in the sense of the Lean model: keep '<' inside fields,
+    remove it when it sits in top-level literal text (e.g. after a malformed field turned a spec into text)"""
+    return t if literals_lt_free(t) else t.replace("<", "(")
 
 
 def fields_at(t, level=0, maxlevel=3):
@@ -395,9 +409,12 @@ VALUES = [
 ACC = {"int": [".real", ".imag", ".numerator"], "float": [".real"], "str": ["[0]", ".missing"], "list": ["[0]", "[1]", "[9]"],
        "dict": ["[k]", "[a b]", "[0]", "[nokey]"], "dt": [".year", ".month"], "obj": [".a", ".b.c", ".b.d[1]", ".zz"],
        "none": [".x"], "bool": [".real"]}
-SPEC = {"int": ["", "05d", "x", "+", ",", ">6", "08.3f", "s", "{w}", ">{w}", "0{w}d"],
-        "float": ["", ".2f", "e", "10.3", "{w}.{p}f", "d"], "str": ["", ">8", "^10", ".2", "*<6", "{w}", "d", "^{w}"],
-        "list": ["", ">12", "d"], "dict": ["", "<30"], "dt": ["", "%Y", "%H:%M", "{{%Y}}", "{w}"], "obj": ["", "q", "{w}", "{{z}}", "{w:{{}}}"],
+SPEC = {"int": ["", "05d", "x", "+", ",", ">6", "08.3f", "s", "{w}", ">{w}", "0{w}d", "<>6", "><{w}", "<<4"],
+        "float": ["", ".2f", "e", "10.3", "{w}.{p}f", "d", "<>9.1f"],
+        "str": ["", ">8", "^10", ".2", "*<6", "{w}", "d", "^{w}", "<>8", "><8", "<>{w}", "<b>", "/>7"],
+        "list": ["", ">12", "d"], "dict": ["", "<30"],
+        "dt": ["", "%Y", "%H:%M", "{{%Y}}", "{w}", "%H<b>%M</b>", "<%Y>", "\\<b>%d", "<red>%S</red>", "</>%j"],
+        "obj": ["", "q", "{w}", "{{z}}", "{w:{{}}}", "<b>", "</b>", "\\<b>", "<red>x</red>", "</>", "<{w}>", "<nosuchtag>"],
         "none": ["", ">6"], "bool": ["", "d", ">6"]}
 
 
@@ -454,10 +471,11 @@ def gen_real_case(rng):
 
 RECORD_FIELDS = ["message", "level", "level.name", "level.no", "level.icon", "name", "function", "line", "module", "file",
                  "file.name", "file.path", "process", "process.id", "process.name", "thread.name", "thread.id", "extra",
-                 "extra[k]", "extra[n]", "extra[o].a", "extra[o].b.c", "extra[missing]", "elapsed", "time", "exception",
+                 "extra[k]", "extra[n]", "extra[o]", "extra[o].a", "extra[o].b.c", "extra[missing]", "elapsed", "time", "exception",
                  "nosuchkey", "", "0", "level.nope", "extra[w]"]
-RECORD_SPECS = {"message": ["", ">12", "^{extra[w]}", "<{extra[w]}", ".3"], "level.no": ["", "05d", "x", "{extra[w]}"],
-                "level.name": ["", "<8", ">{extra[w]}"], "line": ["", "d", "04d"], "time": ["", "YYYY-MM-DD", "HH:mm:ss", "[{{]YYYY[}}]"],
+RECORD_SPECS = {"extra[o]": ["", "<b>", "</b>", "<>8", "\\<b>", "<red>x</red>", "<{extra[w]}>", "</>"],
+                "message": ["", ">12", "^{extra[w]}", "<{extra[w]}", ".3", "<>12", "><{extra[w]}"], "level.no": ["", "05d", "x", "{extra[w]}"],
+                "level.name": ["", "<8", ">{extra[w]}"], "line": ["", "d", "04d"], "time": ["", "YYYY-MM-DD", "HH:mm:ss", "[{{]YYYY[}}]", "HH<b>mm</b>", "<YYYY>"],
                 "extra[n]": ["", "03d", ".1f", "{extra[w]}d"], "level": ["", "<8"], "extra[k]": ["", ">6", "{{}}"]}
 
 
@@ -468,7 +486,7 @@ def gen_record_format(rng):
         if k < 4:
             parts.append(rng.choice(LITS[:14] + [" | ", " - ", "[", "]", ">", "a < b"]))
         else:
-            name = rng.choice(RECORD_FIELDS) if not rng.chance(75) else rng.choice(RECORD_FIELDS[:24])
+            name = rng.choice(RECORD_FIELDS) if not rng.chance(75) else rng.choice(RECORD_FIELDS[:25])
             conv = "!" + rng.choice("rsa") if rng.chance(20) else ""
             spec = ""
             if rng.chance(40):
@@ -483,6 +501,49 @@ def gen_record_format(rng):
 
 
 TAGS = ["red", "b", "bold", "green", "fg 255,0,0", "lvl", "level", "u", "bg #00ff00"]
+
+MARKUP_SPECS = {"obj": ["<b>", "</b>", "<b>x</b>", "\\<b>", "</>", "<red>", "<nosuchtag>", "<{}>", "\\<{}>", "q", ""],
+                "str": ["<>8", "><8", "<>{}", "/>6", "", ">4"],
+                "dt": ["%H<b>%M</b>", "<%Y>", "\\<b>%d", "<red>%S</red>", "%H:%M"],
+                "int": ["<>6", "><4", "05d", "<<3"]}
+MARKUP_ARGS = {"obj": [Pt()], "str": ["x", "ab", "<i>"], "dt": [pydt.datetime(2020, 1, 2, 3, 4, 5)], "int": [7, 42]}
+
+
+def gen_markup_message(rng):
+    """a coloured MESSAGE: colour markup in the literal text, and format specs that look like markup.
+    Returns (template, the same template with the literal-text markup removed, args).  Only the
+    literal text is markup; every format spec must reach __format__ verbatim."""
+    with_m, plain, args = [], [], []
+    for _ in range(rng.range(1, 5)):
+        k = rng.below(10)
+        if k < 2:
+            tag = rng.choice(TAGS)
+            inner = rng.choice(["x", "at ", "é", "a b"])
+            with_m.append("<%s>%s</%s>" % (tag, inner, tag if rng.chance(50) else ""))
+            plain.append(inner)
+        elif k < 3:
+            tag = rng.choice(TAGS + ["/red", "nosuchtag", "/"])
+            with_m.append("\\<%s>" % tag)
+            plain.append("<%s>" % tag)
+        elif k < 4:
+            lit = rng.choice([" ", "|", "a < b", "->", "{{", "}}", "é"])
+            with_m.append(lit)
+            plain.append(lit)
+        else:
+            kind = rng.choice(["obj", "obj", "str", "dt", "int"])
+            spec = rng.choice(MARKUP_SPECS[kind])
+            args.append(rng.choice(MARKUP_ARGS[kind]))
+            for _i in range(spec.count("{}")):
+                args.append(rng.choice(["red", "b", 6, "/"]))
+            conv = "!s" if (kind == "dt" and rng.chance(10)) else ""
+            f = "{%s%s}" % (conv, ":" + spec if spec or rng.chance(30) else "")
+            if rng.chance(35):          # the field sits inside a coloured span
+                tag = rng.choice(TAGS)
+                with_m.append("<%s>%s</%s>" % (tag, f, tag))
+            else:
+                with_m.append(f)
+            plain.append(f)
+    return "".join(with_m), "".join(plain), args
 
 
 def gen_markup_format(rng):
@@ -636,8 +697,8 @@ def _run(ctx, rng, drv, boost, impl):
         for c in json.load(open(os.path.join(cdir, fn), encoding="utf8")).get("cases", []):
             ctx.stat("corpus_file_cases")
             if "template" in c:
-                args = [eval(a, {"datetime": pydt}) for a in c["args"]]
-                kwargs = {k: eval(v, {"datetime": pydt}) for k, v in c["kwargs"].items()}
+                args = [eval(a, {"datetime": pydt, "Pt": Pt}) for a in c["args"]]
+                kwargs = {k: eval(v, {"datetime": pydt, "Pt": Pt}) for k, v in c["kwargs"].items()}
                 ctx.case(("corpusfile", c["template"], c.get("colors")), nontrivial=True)
                 check_message(ctx, impl, c["template"], args, kwargs, "corpus", bool(c.get("colors")))
             else:
@@ -701,7 +762,7 @@ def _run(ctx, rng, drv, boost, impl):
         k = rng.below(10)
         t = gen_template(rng, "named", ["message", "level", "extra"], 0, maxdepth=3, lits=[l for l in LITS if "<" not in l]) \
             if k < 7 else gen_adversarial(rng)
-        t = t.replace("<", "(")      # markup-free: no '<' at all (a malformed field may turn a spec into literal text)
+        t = markup_free_for_model(t)      # '<' only inside fields / format specs
         got = impl.prepare_format(t)
         ctx.case(("prep", t), nontrivial=nontrivial(t))
         ctx.stat("prepare_format:" + got[0])
@@ -732,8 +793,8 @@ def _run(ctx, rng, drv, boost, impl):
         kws = [k for k in ["a", "b", "w"] if rng.chance(60)]
         mode = rng.choice(["auto", "manual", "named", "mixed", "auto", "manual"])
         t = gen_template(rng, mode, kws or ["a"], nargs, maxdepth=3, lits=[l for l in LITS if "<" not in l]) \
-            if not rng.chance(12) else gen_adversarial(rng).replace("<", "(")
-        t = t.replace("!a", "!s").replace("<", "(")     # markup-free: no '<' at all
+            if not rng.chance(12) else gen_adversarial(rng)
+        t = markup_free_for_model(t.replace("!a", "!s"))     # '<' only inside fields / format specs
         if not ascii_only_digits(t):
             continue
         args = [Sym("@%d" % j) for j in range(nargs)]
@@ -756,10 +817,9 @@ def _run(ctx, rng, drv, boost, impl):
                           {"stream": "sym", "template": t, "nargs": nargs, "kws": kws, "expected": list(py), "observed": list(col)},
                           key=key)
         if i % 4 == 0:
-            colors = rng.chance(50)
+            # without arguments the whole message is colour markup: only '<'-free ones belong to this area
+            colors = rng.chance(50) and (bool(args or kwargs) or "<" not in t)
             got = impl.message(t, args, dict(kwargs), colors=colors)
-            if colors and got[0] == "err" and got[1] == "ValueError" and "<" in t:
-                pass
             lines.append("msg %d %d %s %s" % (1 if colors else 0, nargs, kwtok, enc(t)))
             expect.append(("Format.logMessage", (t, nargs, kws, colors), show_res(got)))
             exp = py if (args or kwargs) else ("ok", t)
@@ -775,7 +835,7 @@ def _run(ctx, rng, drv, boost, impl):
     for i in range(n4):
         state = rng.s
         t, args, kwargs = gen_real_case(rng)
-        colors = rng.chance(50) and "<" not in t
+        colors = rng.chance(50) and literals_lt_free(t) and (bool(args or kwargs) or "<" not in t)
         ctx.case(("real", t, repr(args), repr(sorted(kwargs)), colors), nontrivial=nontrivial(t))
         ctx.stat("real:colors" if colors else "real:plain")
         exp = res_of(lambda: t.format(*args, **kwargs)) if (args or kwargs) else ("ok", t)
@@ -804,13 +864,37 @@ def _run(ctx, rng, drv, boost, impl):
                                   {"stream": "record", "rng_state": state, "template": t2, "expected": list(exp2), "observed": list(got)})
             ctx.stat("real:record=True")
 
+    # ---- stream 4b: coloured messages with markup in the literal text AND markup-looking format specs:
+    #      "equals message.format(...) once markup is removed" – only literal text is markup
+    for i in range(ctx.n(1500, 40000) * boost):
+        state = rng.s
+        tm, plain, args = gen_markup_message(rng)
+        ctx.case(("markupmsg", tm, repr(args)), nontrivial=True)
+        ctx.stat("real:markup+spec")
+        exp = res_of(lambda: plain.format(*args)) if args else ("ok", plain)
+        if not args and "{" in plain or "}" in plain and not args:
+            continue        # no argument: the text is not a format template
+        got = impl.message(tm, args, {}, colors=True)
+        ctx.stat("markupmsg:python:" + (exp[0] if exp[0] == "ok" else exp[1]))
+        if got != exp:
+            key = None
+            if args:
+                alt = formatter_vformat(plain, args, {})
+                key = F21_KEY if (got == alt and f21_shape(plain)) else None
+            ctx.violation("logger.opt(colors=True).info(%r, *%r): record['message'] expected %r (= %r.format(...), markup removed), "
+                          "observed %r" % (tm, args, exp, plain, got),
+                          {"stream": "markupmsg", "rng_state": state, "template": tm, "plain": plain, "args": [repr(a) for a in args],
+                           "expected": list(exp), "observed": list(got)}, key=key)
+        if i < 2:
+            ctx.sample({"stream": "markupmsg", "template": tm, "plain": plain, "args": repr(args), "message": list(got)})
+
     # ---- stream 5: handler formats over the record: the four formatting branches and raw
     n5 = ctx.n(1200, 25000) * boost
     extra = {"k": "v1", "n": 42, "o": Pt(), "w": 9}
     for i in range(n5):
         t = gen_record_format(rng)
         dynamic, colorize = rng.chance(40), rng.chance(40)
-        if colorize and ("<" in t):
+        if colorize and not literals_lt_free(t):
             colorize = False
         raw = rng.chance(12)
         msg = rng.choice(["hello", "a{b}", "é {} {{", "", "x<y"])
@@ -876,7 +960,8 @@ def _run(ctx, rng, drv, boost, impl):
 
     for i in range(n6):
         t = gen_template(rng, "named" if not rng.chance(10) else "mixed", symkeys, 0, maxdepth=3,
-                         lits=[l for l in LITS if "<" not in l]).replace("!a", "!r").replace("<", "(")
+                         lits=[l for l in LITS if "<" not in l]).replace("!a", "!r")
+        t = markup_free_for_model(t)
         if not ascii_only_digits(t) or any(n.split(".")[0].split("[")[0] in ("message", "level", "exception")
                                            for _l, n, _s in fields_at(t)):
             continue
@@ -961,8 +1046,8 @@ def _replay(ctx, r, impl):
         if "rng_state" in r:
             t0, args, kwargs = real_case_from_replay(r)
         else:
-            t0, args, kwargs = r["template"], [eval(a, {"datetime": pydt}) for a in r["args"]], \
-                {k: eval(v, {"datetime": pydt}) for k, v in r["kwargs"].items()}
+            t0, args, kwargs = r["template"], [eval(a, {"datetime": pydt, "Pt": Pt}) for a in r["args"]], \
+                {k: eval(v, {"datetime": pydt, "Pt": Pt}) for k, v in r["kwargs"].items()}
         t = r["template"]
         if st == "record":
             got = impl.message(t, args, dict(kwargs), record=True)
@@ -970,6 +1055,13 @@ def _replay(ctx, r, impl):
             got = impl.message(t, args, dict(kwargs), colors=r.get("colors", False))
             exp = list(res_of(lambda: t.format(*args, **kwargs))) if (args or kwargs) else ["ok", t]
         print("template=%r args=%r kwargs=%r colors=%r" % (t, args, kwargs, r.get("colors")))
+    elif st == "markupmsg":
+        rng = core.Rng(0)
+        rng.s = r["rng_state"]
+        t, plain, args = gen_markup_message(rng)
+        got = impl.message(t, args, {}, colors=True)
+        exp = list(res_of(lambda: plain.format(*args))) if args else ["ok", plain]
+        print("template=%r markup-free=%r args=%r" % (t, plain, args))
     elif st in ("sym", "symmsg"):
         t, nargs, kws = r["template"], r["nargs"], r["kws"]
         args = [Sym("@%d" % j) for j in range(nargs)]
